@@ -377,7 +377,86 @@ func c08ContainerProbes(c *Ctx) {
 
 // ---- C09 ----
 
+// refTexts collects the texts of all "$ref" members that hold a string.
+func refTexts(v wire.V, out *[]string) {
+	switch v.Kind {
+	case wire.Obj:
+		for _, m := range v.O {
+			if m.K == "$ref" && m.V.Kind == wire.Str {
+				*out = append(*out, m.V.S)
+			}
+			refTexts(m.V, out)
+		}
+	case wire.Arr:
+		for _, e := range v.A {
+			refTexts(e, out)
+		}
+	}
+}
+
+// c09IDs: a parameter and a response imported from another document, whose inline schemas declare an `id` that is
+// an absolute URL - a folder (trailing slash) or a file - and hold a relative $ref beneath it. The id is the base of
+// that $ref: read from the root, it designates the document at the id's site, and says so after the import.
+func c09IDs(c *Ctx) {
+	for _, id := range []string{"http://schemas.example.com/filters/", "http://schemas.example.com/filters/schema.json", "https://schemas.example.com/a/b/", "http://schemas.example.com/"} {
+		idu, err := url.Parse(id)
+		if err != nil {
+			continue
+		}
+		target := idu.ResolveReference(&url.URL{Path: "common.json"}).String()
+		root, lib := "file:///c09/ids/root.json", "file:///c09/ids/lib/params.json"
+		page := func(who string) wire.V {
+			return wire.MustParse(`{"definitions":{"Page":{"type":"integer","description":"page of ` + who + `"}}}`)
+		}
+		w := &refgraph.World{Root: root, Docs: map[string]wire.V{
+			root: wire.MustParse(`{"swagger":"2.0","info":{"title":"t","version":"1"},"paths":{"/a":{"get":{"parameters":[{"$ref":"lib/params.json#/parameters/filter"}],"responses":{"200":{"$ref":"lib/params.json#/responses/list"}}}}}}`),
+			lib: wire.MustParse(`{"parameters":{"filter":{"name":"f","in":"body","schema":{"id":` + quoteJSON(id) + `,"type":"object","properties":{"page":{"$ref":"common.json#/definitions/Page"}}}}},` +
+				`"responses":{"list":{"description":"d","schema":{"id":` + quoteJSON(id) + `,"type":"array","items":{"$ref":"common.json#/definitions/Page"}}}}}`),
+			target: page("the id's site"),
+			// namesakes wherever a mangled base could lead
+			"file:///c09/ids/lib/common.json":                               page("the importing document's directory"),
+			"file:///c09/ids/common.json":                                   page("the root's directory"),
+			"file:///" + idu.Host + path.Dir(idu.Path+"x") + "/common.json": page("a file path made of the id"),
+		}}
+		for _, abs := range []bool{false, true} {
+			o := expOpts{Skip: true, Absolute: abs}
+			cs := map[string]interface{}{"world": worldJSON(w), "options": o.String(), "id": id}
+			c.Count(fmt.Sprint("ids", id, abs), true)
+			c.Hit("absolute-id-on-imported-element")
+			res := expandWorld(w, o)
+			if res.Hang || res.Panic != "" || res.Err != nil {
+				c.Fail(Failure{Kind: "oracle", Sig: "C09:ids", What: fmt.Sprint("skip-schemas expansion fails, hangs or panics: ", res.Err, res.Panic), Case: cs})
+				continue
+			}
+			var refs []string
+			refTexts(res.Out, &refs)
+			if len(refs) != 2 {
+				c.Fail(Failure{Kind: "oracle", Sig: "C09:ids", What: fmt.Sprintf("expected the two schema $refs to be kept, found %q", refs), Case: cs, Impl: clip(res.Out.Text())})
+			}
+			for _, r := range refs {
+				if r != target+"#/definitions/Page" {
+					c.Fail(Failure{Kind: "oracle", Sig: "C09:ids", What: fmt.Sprintf("the $ref %q kept under the id %q designates, read from the root, another document than before the import (%s)", r, id, target+"#/definitions/Page"), Case: cs, Impl: clip(res.Out.Text())})
+				}
+			}
+			w2 := w.Clone()
+			w2.Docs[w.Root] = res.Out
+			full2, full1 := expandWorld(w2, expOpts{}), expandWorld(w, expOpts{})
+			if full1.Err == nil && full1.Panic == "" && !full1.Hang {
+				if full2.Err != nil || full2.Panic != "" || full2.Hang {
+					c.Fail(Failure{Kind: "oracle", Sig: "C09:skip-then-full-fails", What: fmt.Sprint("full expansion of the skip-schemas result fails: ", full2.Err, full2.Panic), Case: cs})
+				} else if full1.Out.Canon() != full2.Out.Canon() {
+					c.Fail(Failure{Kind: "oracle", Sig: "C09:skip-then-full-differs", What: "full expansion of the skip-schemas result differs from the direct full expansion: " + clip(firstDiff(full1.Out.Canon(), full2.Out.Canon())), Case: cs})
+				}
+				if !strings.Contains(full1.Out.Text(), "page of the id's site") || strings.Contains(full1.Out.Text(), "page of the importing") || strings.Contains(full1.Out.Text(), "page of a file path") || strings.Contains(full1.Out.Text(), "page of the root") {
+					c.Fail(Failure{Kind: "oracle", Sig: "C09:ids", What: "the direct full expansion does not inline the document at the id's site", Case: cs, Impl: clip(full1.Out.Text())})
+				}
+			}
+		}
+	}
+}
+
 func runC09(c *Ctx) {
+	c09IDs(c)
 	c.Res.Rule = "random multi-document reference graphs (element-heavy families: parameters / responses / path items imported from documents in other directories whose schemas point back to the root, to their own document and to third documents), all targets present, SkipSchemas=true; oracle: definitions section unchanged, no $ref left on a parameter, response or path item, every element denotes the same tree (independent unfolding to depth 6), every remaining schema $ref into the root document is fragment-only, and a full expansion of the result has the same meaning as a direct full expansion; the proved-sound checker must accept the output as a partial unfolding that follows no schema reference; non-trivial = graph with an element reference crossing documents; distinct by world"
 	n := c.N(500, 12000)
 	fams := []graphFamily{
